@@ -96,6 +96,18 @@ def rebuild_problems(poly):
     routes = []
     routes.append(("attributes", lambda: numpoly.polynomial_from_attributes(
         poly.exponents, poly.coefficients, poly.names, retain_names=True)))
+    # the same attribute objects used for two rebuilds, zero terms and names kept as given:
+    # a triple denotes its polynomial however often it is used
+    held = (poly.exponents, poly.coefficients, poly.names)
+
+    def twice():
+        first = numpoly.polynomial_from_attributes(*held, retain_coefficients=True, retain_names=True)
+        second = numpoly.polynomial_from_attributes(*held, retain_coefficients=True, retain_names=True)
+        if M.diff_arrays(M.abstract(second), M.abstract(first)):
+            raise AssertionError("second rebuild from the same attribute objects differs from the "
+                                 f"first: {second!r:.120} vs {first!r:.120}")
+        return second
+    routes.append(("attributes (used twice)", twice))
     routes.append(("raw view", lambda: numpoly.aspolynomial(numpy.array(poly.values), names=poly.names)))
     routes.append(("todict", lambda: numpoly.polynomial(poly.todict(), names=poly.names)))
     for label, func in routes:
